@@ -48,12 +48,17 @@ structure XInv (c : Cfg) (hasAttrs : Bool) (s : ESt) : Prop where
   done : ∀ ch ∈ s.done, DoneOk c hasAttrs true ch
   bareF : s.fresh = true → bareCount s.done ≤ (if hasAttrs then 1 else 0)
   bareN : s.fresh = false → bareCount s.done = 0
+  /-- the buffer limit while the open message still contains the attribute array -/
+  limN : s.fresh = false → s.lim = c.limit + c.close + c.evOpen
+  /-- when the attribute array start is not longer than the event array start (the real encoding:
+  both 2 bytes) no finished message is bare -/
+  bare0 : c.arrOpen ≤ c.evOpen → bareCount s.done = 0
 
 theorem xinv_cursor {c : Cfg} {t : Bool} {s : ESt} (h : XInv c t s) (k : Nat) : XInv c t { s with cursor := k } :=
-  ⟨h.used, h.baseF, h.baseN, h.done, h.bareF, h.bareN⟩
+  ⟨h.used, h.baseF, h.baseN, h.done, h.bareF, h.bareN, h.limN, h.bare0⟩
 
 theorem xinv_writeEv {c : Cfg} {t : Bool} {s : ESt} (h : XInv c t s) (p : EvPiece) : XInv c t (s.writeEv p) := by
-  refine ⟨?_, h.baseF, h.baseN, h.done, h.bareF, h.bareN⟩
+  refine ⟨?_, h.baseF, h.baseN, h.done, h.bareF, h.bareN, h.limN, h.bare0⟩
   show s.used + p.size = s.base + sumEv (p :: s.evs)
   rw [sumEv_cons, h.used]; omega
 
@@ -62,7 +67,8 @@ theorem xinv_wr {c : Cfg} {t : Bool} {s : ESt} (h : XInv c t s) (e : Ev) : XInv 
 
 /-- sending the open message: allowed when it carries an event report or still contains the
 attribute array -/
-theorem xinv_flushEv {c : Cfg} {t : Bool} {s : ESt} (h : XInv c t s) (hne : s.fresh = true → s.evs ≠ []) :
+theorem xinv_flushEv {c : Cfg} {t : Bool} {s : ESt} (h : XInv c t s) (hne : s.fresh = true → s.evs ≠ [])
+    (hnb : c.arrOpen ≤ c.evOpen → s.fresh = false → s.attrs ≠ [] ∨ s.evs ≠ []) :
     XInv c t (s.flushEv c) := by
   have hnew : DoneOk c t true { pieces := s.attrs.reverse, events := s.evs.reverse, size := s.used + c.trailerMore, more := true } ∧
       (s.fresh = true → ({ pieces := s.attrs.reverse, events := s.evs.reverse, size := s.used + c.trailerMore, more := true } : ChunkOut).bare = false) := by
@@ -83,7 +89,18 @@ theorem xinv_flushEv {c : Cfg} {t : Bool} {s : ESt} (h : XInv c t s) (hne : s.fr
       simp only [if_true, Bool.true_or, Bool.and_self, Bool.not_true, Bool.and_false, Bool.false_eq_true, if_false,
         sumEv_reverse, sumSizes_reverse]
       rw [h.used, hb]; omega
-  refine ⟨by simp [ESt.flushEv, sumEv], (fun _ => ⟨rfl, rfl⟩), (fun h0 => by simp [ESt.flushEv] at h0), ?_, (fun _ => ?_), (fun h0 => by simp [ESt.flushEv] at h0)⟩
+  refine ⟨by simp [ESt.flushEv, sumEv], (fun _ => ⟨rfl, rfl⟩), (fun h0 => by simp [ESt.flushEv] at h0), ?_, (fun _ => ?_), (fun h0 => by simp [ESt.flushEv] at h0),
+    (fun h0 => by simp [ESt.flushEv] at h0), ?_⟩
+  rotate_left 2
+  · intro hle
+    show bareCount (_ :: s.done) = 0
+    rw [bareCount_cons, h.bare0 hle]
+    cases hf : s.fresh with
+    | true => rw [hnew.2 hf]; rfl
+    | false =>
+      have : ({ pieces := s.attrs.reverse, events := s.evs.reverse, size := s.used + c.trailerMore, more := true } : ChunkOut).bare = false := by
+        rcases hnb hle hf with h1 | h1 <;> simp [ChunkOut.bare, h1]
+      rw [this]; rfl
   · intro ch hch
     simp only [ESt.flushEv, List.mem_cons] at hch
     rcases hch with rfl | hch
@@ -112,15 +129,29 @@ theorem xinv_putEvStatus {c : Cfg} {t : Bool} {s s' : ESt} {k sz : Nat} (h : XIn
     split at hp
     · rename_i hfit
       injection hp with hp; subst hp
-      refine xinv_writeEv (xinv_flushEv h ?_) _
-      intro hf hev
-      -- an empty event message would have had room for the status
-      obtain ⟨hb, hl⟩ := he.freshOk hf
-      have hu := h.used
-      rw [hev] at hu
-      simp only [sumEv, List.map_nil, List.sum_nil, Nat.add_zero] at hu
-      simp only [ESt.flushEv] at hfit
-      omega
+      refine xinv_writeEv (xinv_flushEv h ?_ ?_) _
+      · intro hf hev
+        -- an empty event message would have had room for the status
+        obtain ⟨hb, hl⟩ := he.freshOk hf
+        have hu := h.used
+        rw [hev] at hu
+        simp only [sumEv, List.map_nil, List.sum_nil, Nat.add_zero] at hu
+        simp only [ESt.flushEv] at hfit
+        omega
+      · intro hle hf
+        -- behind an empty attribute array there is as much room as in an empty event message
+        apply Classical.byContradiction
+        intro hno
+        have ha : s.attrs = [] := Classical.byContradiction fun h1 => hno (.inl h1)
+        have hev : s.evs = [] := Classical.byContradiction fun h1 => hno (.inr h1)
+        have hu := h.used
+        obtain ⟨_, hb⟩ := h.baseN hf
+        have hl := h.limN hf
+        rw [hev] at hu
+        rw [ha] at hb
+        simp only [sumEv, sumSizes, List.map_nil, List.sum_nil, Nat.add_zero] at hu hb
+        simp only [ESt.flushEv] at hfit
+        omega
     · cases hp
 
 theorem xinv_putEvStatuses {c : Cfg} {t : Bool} (hw : c.WF) : ∀ (szs : List Nat) (k : Nat) (s s' : ESt), XInv c t s →
@@ -155,17 +186,167 @@ theorem xinv_sweep {c : Cfg} {t : Bool} (hw : c.WF) (r : EvReq) : ∀ (es : List
           · rename_i hnf
             split at hp
             · rename_i hfit
+              rename_i hnofit
               have hfl : XInv c t (s.flushEv c) := by
-                refine xinv_flushEv h ?_
-                intro hf hev
-                apply hnf
-                have hu := h.used
-                rw [hev] at hu
-                simp only [sumEv, List.map_nil, List.sum_nil, Nat.add_zero] at hu
-                simp [hf, hu]
+                refine xinv_flushEv h ?_ ?_
+                · intro hf hev
+                  apply hnf
+                  have hu := h.used
+                  rw [hev] at hu
+                  simp only [sumEv, List.map_nil, List.sum_nil, Nat.add_zero] at hu
+                  simp [hf, hu]
+                · intro hle hf
+                  apply Classical.byContradiction
+                  intro hno
+                  have ha : s.attrs = [] := Classical.byContradiction fun h1 => hno (.inl h1)
+                  have hev : s.evs = [] := Classical.byContradiction fun h1 => hno (.inr h1)
+                  have hu := h.used
+                  obtain ⟨_, hb⟩ := h.baseN hf
+                  have hl := h.limN hf
+                  rw [hev] at hu
+                  rw [ha] at hb
+                  simp only [sumEv, sumSizes, List.map_nil, List.sum_nil, Nat.add_zero] at hu hb
+                  simp only [ESt.flushEv] at hfit
+                  omega
               exact ih _ s' (xinv_wr hfl e) (wr_ok e (flushEv_ok hw he).1 hfit).1 hp
             · cases hp
       · exact ih _ s' (xinv_cursor h e.num) ⟨he.usedLe, he.limLe, he.doneOk, he.freshOk⟩ hp
     · exact ih _ s' h he hp
+
+/-! ## the sections -/
+
+theorem DoneOk.mono {c : Cfg} {t : Bool} {ch : ChunkOut} (h : DoneOk c t false ch) : DoneOk c t true ch := by
+  obtain ⟨h1, a, e, h2, _, h4, h5⟩ := h
+  exact ⟨h1, a, e, h2, (fun _ => rfl), h4, h5⟩
+
+/-- what `report_attributes` leaves behind, for the accounting -/
+structure XPre (c : Cfg) (t : Bool) (s : ESt) : Prop where
+  evs : s.evs = []
+  usedF : s.fresh = true → t = false ∧ s.used = c.hdr ∧ s.attrs = []
+  usedN : s.fresh = false → t = true ∧ s.used = c.hdr + c.arrOpen + sumSizes s.attrs + c.close
+  done : ∀ ch ∈ s.done, DoneOk c t false ch
+  bare0 : bareCount s.done = 0
+  limN : s.fresh = false → s.lim = c.limit + c.close
+
+theorem bareCount_zero_of (l : List ChunkOut) (h : ∀ ch ∈ l, ch.pieces ≠ []) : bareCount l = 0 := by
+  induction l with
+  | nil => rfl
+  | cons ch l ih =>
+    rw [bareCount_cons, ih (fun x hx => h x (List.mem_cons_of_mem _ hx))]
+    have := h ch List.mem_cons_self
+    simp [ChunkOut.bare, this]
+
+theorem attrSection_acc {c : Cfg} (hw : c.WF) {ra : Option (List AttrReq)} {s1 : ESt}
+    (h : attrSection c ra = .ok s1) : XPre c ra.isSome s1 := by
+  cases ra with
+  | none =>
+    simp only [attrSection] at h
+    injection h with h; subst h
+    exact ⟨rfl, (fun _ => ⟨rfl, rfl, rfl⟩), (fun h0 => by cases h0), (fun ch hch => by cases hch), rfl, (fun h0 => by cases h0)⟩
+  | some as =>
+    obtain ⟨s, _, hinv, hd, ha, he, hu, hlim, hf, _⟩ := attrSection_some hw h
+    refine ⟨he, (fun h0 => by rw [hf] at h0; cases h0), (fun _ => ⟨rfl, ?_⟩), ?_, ?_, (fun _ => hlim)⟩
+    · rw [hu, ha, hinv.usedEq]
+    · intro ch hch
+      rw [hd] at hch
+      obtain ⟨m1, _, m3, m4⟩ := hinv.doneOk ch hch
+      have hne := hinv.doneNonempty ch hch
+      refine ⟨m1, true, false, (fun _ => rfl), (fun h0 => by cases h0), ⟨?_, (fun h0 => by cases h0), (fun _ => m4)⟩, ?_⟩
+      · rw [m3, m1]; simp; omega
+      · intro hb
+        simp [ChunkOut.bare, hne] at hb
+    · rw [hd]; exact bareCount_zero_of _ hinv.doneNonempty
+
+/-- what `send(Done)` finds, for the accounting -/
+structure XFin (c : Cfg) (t ev : Bool) (s : ESt) : Prop where
+  fin : Accounts c (!s.fresh) ev
+    { pieces := s.attrs.reverse, events := s.evs.reverse, size := s.used + c.trailerDone, more := false }
+  freshT : s.fresh = false → t = true
+  done : ∀ ch ∈ s.done, DoneOk c t ev ch
+  bare : bareCount s.done ≤ (if t && ev then 1 else 0)
+  bare0 : c.arrOpen ≤ c.evOpen → bareCount s.done = 0
+
+theorem eventSection_acc {c : Cfg} (hw : c.WF) {t : Bool} {s s2 : ESt} {re : Option EvReq} (hx : XPre c t s)
+    (h : AInv c s) (hp : eventSection c s re = .ok s2) : XFin c t re.isSome s2 := by
+  cases re with
+  | none =>
+    simp only [eventSection] at hp
+    injection hp with hp; subst hp
+    refine ⟨?_, (fun hf => (hx.usedN hf).1), hx.done, by rw [hx.bare0]; exact Nat.zero_le _, (fun _ => hx.bare0)⟩
+    cases hf : s.fresh with
+    | true =>
+      obtain ⟨_, hu, ha⟩ := hx.usedF hf
+      refine ⟨?_, (fun _ => by simp [ha]), (fun _ => by simp [hx.evs])⟩
+      simp [hu]
+    | false =>
+      obtain ⟨_, hu⟩ := hx.usedN hf
+      refine ⟨?_, (fun h0 => by cases h0), (fun _ => by simp [hx.evs])⟩
+      simp [hu, sumSizes_reverse]; omega
+  | some r =>
+    simp only [eventSection] at hp
+    cases hxp : expand c s.lim c.evOpen with
+    | error e => rw [hxp] at hp; cases hp
+    | ok lim =>
+      rw [hxp] at hp
+      simp only at hp
+      obtain rfl := expand_ok hxp
+      split at hp
+      · rename_i hfit
+        have i1 : EInv c { s with lim := s.lim + c.evOpen, used := s.used + c.evOpen, base := s.used + c.evOpen, cursor := r.maxSeen } := by
+          refine ⟨hfit, by have := h.limLe; simp only; omega, h.doneOk, ?_⟩
+          intro hf
+          obtain ⟨h1, h2⟩ := h.freshOk hf
+          simp only; omega
+        have x1 : XInv c t { s with lim := s.lim + c.evOpen, used := s.used + c.evOpen, base := s.used + c.evOpen, cursor := r.maxSeen } := by
+          refine ⟨by simp [hx.evs, sumEv], ?_, ?_, (fun ch hch => (hx.done ch hch).mono), ?_, (fun _ => hx.bare0),
+            (fun hf => by show s.lim + c.evOpen = _; rw [hx.limN hf]), (fun _ => hx.bare0)⟩
+          · intro hf
+            obtain ⟨_, hu, ha⟩ := hx.usedF hf
+            exact ⟨by simp only; rw [hu], ha⟩
+          · intro hf
+            obtain ⟨ht, hu⟩ := hx.usedN hf
+            exact ⟨ht, by simp only; rw [hu]⟩
+          · intro _
+            show bareCount s.done ≤ _
+            rw [hx.bare0]; exact Nat.zero_le _
+        cases hst : putEvStatuses c 0 r.statuses { s with lim := s.lim + c.evOpen, used := s.used + c.evOpen, base := s.used + c.evOpen, cursor := r.maxSeen } with
+        | error e => rw [hst] at hp; cases hp
+        | ok s3 =>
+          rw [hst] at hp
+          simp only at hp
+          obtain ⟨i2, _⟩ := putEvStatuses_ok hw _ _ _ _ i1 hst
+          have x2 := xinv_putEvStatuses hw _ _ _ _ x1 i1 hst
+          rw [evLoop_eq_sweep c r r.buf [] s3 r.buf.length (Nat.le_refl _) (by simp) (by simp)] at hp
+          cases hsw : sweep c r r.buf s3 with
+          | error e => rw [hsw] at hp; cases hp
+          | ok s4 =>
+            rw [hsw] at hp
+            simp only at hp
+            have x3 := xinv_sweep hw r _ _ _ x2 i2 hsw
+            cases hx2 : expand c s4.lim c.close with
+            | error e => rw [hx2] at hp; cases hp
+            | ok lim' =>
+              rw [hx2] at hp
+              simp only at hp
+              split at hp
+              · injection hp with hp; subst hp
+                refine ⟨?_, (fun hf => (x3.baseN hf).1), x3.done, ?_, x3.bare0⟩
+                · show Accounts c (!s4.fresh) true
+                    { pieces := s4.attrs.reverse, events := s4.evs.reverse, size := s4.used + c.close + c.trailerDone, more := false }
+                  cases hf : s4.fresh with
+                  | true =>
+                    obtain ⟨hb, ha⟩ := x3.baseF hf
+                    refine ⟨?_, (fun _ => by simp [ha]), (fun h0 => by cases h0)⟩
+                    simp [x3.used, hb, sumEv_reverse]; omega
+                  | false =>
+                    obtain ⟨_, hb⟩ := x3.baseN hf
+                    refine ⟨?_, (fun h0 => by cases h0), (fun h0 => by cases h0)⟩
+                    simp [x3.used, hb, sumEv_reverse, sumSizes_reverse]; omega
+                · show bareCount s4.done ≤ _
+                  cases hf : s4.fresh with
+                  | true => have := x3.bareF hf; simpa using this
+                  | false => rw [x3.bareN hf]; exact Nat.zero_le _
+              · cases hp
+      · cases hp
 
 end Chunk
